@@ -166,6 +166,10 @@ def mk_event(r, i, hostile_id=False):
         # zero-valued fields are legitimate values (epoch instant, equator, prime meridian, surface, magnitude 0)
         k = int(z / 0.03)
         ms, lat, lon, dep, mag = (0 if k == 0 else ms), (0.0 if k == 1 else lat), (0.0 if k == 2 else lon), (0.0 if k == 3 else dep), (0.0 if k == 4 else mag)
+    elif z < 0.27 and z >= 0.22:
+        # the ends of the coordinate ranges: the antimeridian written either way, the poles
+        k = int((z - 0.22) / 0.0125)
+        lon, lat = (180.0 if k == 0 else (-180.0 if k == 1 else lon)), (90.0 if k == 2 else (-90.0 if k == 3 else lat))
     elif z < 0.22:
         # values whose shortest text form uses exponent notation (within 1e-4 of the prime meridian / equator / surface)
         k = int((z - 0.15) / 0.0234)
